@@ -291,3 +291,7 @@ def run(repo: Repo, rep: Report, tier: str) -> None:
     from ..delegate import delegate
     rep.rule("fragments-complete", "the data-set bytes are cut into consecutive fragments that together are the whole data set and are re-joined in order (C15's fragmentation rules)")
     delegate(repo, rep, tier, "C15", ("overhead", "overhead-count", "order-flags", "reader-bits", "reader-complete", "one-pdv"), "fragments-complete", "for some data-set length and peer maximum the bytes that arrive are not the bytes that were sent (a tail that is never sent, a fragment read out of place)")
+
+    from ..lints import no_memoised_io
+    rep.rule("no-stale-meta", "no function whose result depends on a file or on configuration is memoised")
+    rep.floor("functions scanned for memoising decorators", no_memoised_io(repo, rep, "no-stale-meta"), 500)
